@@ -39,6 +39,10 @@ structure Backend where
   asBytes : Prog
   /-- limbs of the constants, in the order of the generated `constNames` -/
   consts : List (List Nat)
+  /-- documented input contract of `as_bytes` (only a shortcut of the analysis, see `absEnc`) -/
+  asBytesPre : List Itv
+  /-- documented input contract of the loop body of `pow2k` (only a shortcut of the analysis, see `absPow`) -/
+  powPre : List Itv
 
 /-! ## abstract domain -/
 
@@ -97,20 +101,21 @@ def absUn (ps : List Prog) (a : AVal) : AVal :=
   | some x => absSeq ps x
   | none => none
 
+/-- The operand passes the analysis of `as_bytes`.  Shortcut: if the operand is inside the documented contract
+vector `pre`, analyse `as_bytes` AT the contract vector (a closed term: the kernel evaluates it once per proof and
+caches it) — inclusion + analysis at the larger vector is sound; otherwise analyse at the operand's own vector. -/
+def absEnc (asBytes : Prog) (pre : List Itv) (x : List Itv) : Bool :=
+  if itvsLe x pre then (absK asBytes pre).isSome else (absK asBytes x).isSome
+
 /-- the operand must pass the analysis of `as_bytes`; the result is a choice -/
-def absPred1 (asBytes : Prog) (a : AVal) : AVal :=
+def absPred1 (asBytes : Prog) (pre : List Itv) (a : AVal) : AVal :=
   match a with
-  | some x => match absK asBytes x with
-    | some _ => some choiceItv
-    | none => none
+  | some x => if absEnc asBytes pre x then some choiceItv else none
   | none => none
 
-def absPred2 (asBytes : Prog) (a b : AVal) : AVal :=
+def absPred2 (asBytes : Prog) (pre : List Itv) (a b : AVal) : AVal :=
   match a, b with
-  | some x, some y =>
-    match absK asBytes x, absK asBytes y with
-    | some _, some _ => some choiceItv
-    | _, _ => none
+  | some x, some y => if absEnc asBytes pre x && absEnc asBytes pre y then some choiceItv else none
   | _, _ => none
 
 def absCh2 (a b : AVal) : AVal :=
@@ -131,6 +136,17 @@ def absSel (c a b : AVal) : AVal :=
 /-- number of rounds of the invariant search of `pow2k` -/
 def powFuel : Nat := 3
 
+/-- `pow2k`: analyse the loop body ONCE, at the documented contract vector `pre` of the body (a closed term,
+evaluated once per proof), check that the start vector is inside `pre` and that the analysed post-condition is
+inside `pre` again: then `pre` is a loop invariant and every iterate from the first on is inside the post-condition,
+independently of the iteration count.  Fallback (start vector outside the contract): `powFix`. -/
+def absPow (body : Prog) (pre : List Itv) (x : List Itv) : AVal :=
+  if itvsLe x pre then
+    match absK body pre with
+    | some P => if itvsLe P pre then some P else powFix body powFuel x
+    | none => powFix body powFuel x
+  else powFix body powFuel x
+
 def boundOps (B : Backend) : FOps AVal where
   add := absBin B.add
   sub := absBin B.sub
@@ -139,12 +155,12 @@ def boundOps (B : Backend) : FOps AVal where
   square := absUn B.square
   square2 := absUn B.square2
   pow2k := fun a k => match a with
-    | some x => if k = 0 then none else powFix B.powBody powFuel x
+    | some x => if k = 0 then none else absPow B.powBody B.powPre x
     | none => none
   const := fun i => (B.consts[i]?).map (fun l => l.map (fun n => ⟨n, n, 0⟩))
-  ctEq := absPred2 B.asBytes
-  isNeg := absPred1 B.asBytes
-  isZero := absPred1 B.asBytes
+  ctEq := absPred2 B.asBytes B.asBytesPre
+  isNeg := absPred1 B.asBytes B.asBytesPre
+  isZero := absPred1 B.asBytes B.asBytesPre
   cand := absCh2
   cor := absCh2
   cxor := absCh2
@@ -283,6 +299,8 @@ def B51 : Backend where
   consts := [[0, 0, 0, 0, 0], [1, 0, 0, 0, 0], U64.MINUS_ONE, U64.MINUS_ONE, U64.EDWARDS_D, U64.EDWARDS_D2,
     U64.ONE_MINUS_EDWARDS_D_SQUARED, U64.EDWARDS_D_MINUS_ONE_SQUARED, U64.SQRT_AD_MINUS_ONE,
     U64.INVSQRT_A_MINUS_D, U64.SQRT_M1, U64.APLUS2_OVER_FOUR, U64.MONTGOMERY_A, U64.MONTGOMERY_A_NEG]
+  asBytesPre := List.replicate 5 ⟨0, 2 ^ 54 - 1, 0⟩
+  powPre := List.replicate 5 ⟨0, 2 ^ 54 - 1, 0⟩
 
 open Dalek.Gen.Consts in
 /-- serial u32 backend (`FieldElement2625`) -/
@@ -299,6 +317,8 @@ def B26 : Backend where
     U32.EDWARDS_D, U32.EDWARDS_D2, U32.ONE_MINUS_EDWARDS_D_SQUARED, U32.EDWARDS_D_MINUS_ONE_SQUARED,
     U32.SQRT_AD_MINUS_ONE, U32.INVSQRT_A_MINUS_D, U32.SQRT_M1, U32.APLUS2_OVER_FOUR, U32.MONTGOMERY_A,
     U32.MONTGOMERY_A_NEG]
+  asBytesPre := (List.range 10).map (fun i => ⟨0, 2 ^ ((if i % 2 = 0 then 26 else 25) + 2) - 1, 0⟩)
+  powPre := (List.range 10).map (fun i => ⟨0, 2 ^ (if i % 2 = 0 then 26 else 25) * 336 / 100 - 1, 0⟩)
 
 /-- the names the constant tables line up with (compared with the generated `constNames` in Props) -/
 def constNames : List String :=
